@@ -25,6 +25,47 @@ from ..model import AnalysisError, walk_no_nested
 from ..paths import calls_in
 from ..report import Ctx
 
+SEGMENT_REF = '''
+def _segment(self):
+    self.data = []
+    self.text = []
+    if self.token_list == []:
+        return
+    data_exists = False
+    text_exists = True
+    self.text = self.token_list
+    if not isinstance(self.token_list[0][2][0], str):
+        if self.token_list[0][2][0].get("directive") == "data":
+            data_exists = True
+            text_exists = False
+            self.data = self.token_list[1:]
+            self.text = []
+        elif self.token_list[0][2][0].get("directive") == "text":
+            self.text = self.token_list[1:]
+    for line_number, line, line_parsed in self.token_list[1:]:
+        if isinstance(line_parsed[0], str):
+            continue
+        line_parsed[0].get("directive")
+        if line_parsed[0].get("directive") == "data":
+            if not data_exists:
+                data_exists = True
+                index = self.text.index((line_number, line, line_parsed))
+                self.data = self.text[index + 1:]
+                self.text = self.text[:index]
+            else:
+                raise ParserDirectiveException(line_number=line_number, line=line)
+        elif line_parsed[0].get("directive") == "text":
+            if not text_exists:
+                text_exists = True
+                index = self.data.index((line_number, line, line_parsed))
+                self.text = self.data[index + 1:]
+                self.data = self.data[:index]
+            else:
+                raise ParserDirectiveException(line_number=line_number, line=line)
+        elif line_parsed.get("directive") is not None:
+            raise ParserDirectiveException(line_number=line_number, line=line)
+'''
+
 EXPLANATION = (
     "Decides the layout rules row by row: for each declaration type the element size recorded for "
     "name[i] addressing, the stride the address counter advances by, the memory writer and the "
@@ -414,8 +455,46 @@ def run(ctx: Ctx) -> None:
     # (that the layout starts at the first data address, rounded up to a word boundary, is decided by the residue
     #  analysis of R05.types: instance `start`)
     r.inst("base", "see R05.types start")
-    r.check("for line_number, line, line_parsed in self.data" in txt, "order", wd.loc(), "declarations are not laid out in self.data order")
-    r.check("if line_parsed.name in self.variables: raise ParserDataDuplicateException" in txt, "duplicates", wd.loc(), "duplicate names are no longer rejected")
+    # declaration order: the declaration loop walks self.data itself (anchor of _find_loop_and_counter), in list order
+    loop, _cn = _find_loop_and_counter(ctx, wd)
+    r.check(isinstance(loop.iter, ast.Attribute) and loop.iter.attr == "data", "order", wd.loc(loop), "declarations are not laid out in self.data order")
+    # duplicates: every path that records a variable has tested `name in self.variables` (False) before; the True side raises
+    from ..pathsym import iteration, sym_events
+    from ..paths import function_paths
+    s0 = wd.params[0]
+    recs = _recordings(loop, s0)
+    n_rec = bad_rec = n_dup = bad_dup = 0
+    seen_sig: set = set()
+    for p_ in function_paths(wd.node):
+        it = iteration(p_, loop)
+        if it is None:
+            continue
+        sig = tuple((id(e.node), e.pol, e.kind) for e in p_.events[it[0] + 1:it[1]]) + (p_.term,)
+        if sig in seen_sig:
+            continue
+        seen_sig.add(sig)
+        tested = None
+        for se in sym_events(p_):
+            if not (it[0] < se.index < it[1]):
+                continue
+            if se.event.kind == "test" and isinstance(se.node, ast.Compare) and len(se.node.ops) == 1 and isinstance(se.node.ops[0], (ast.In, ast.NotIn)) \
+                    and ast.unparse(se.node.comparators[0]) == f"{s0}.variables" \
+                    and " ".join(ast.unparse(se.node.left).split()) in ("line_parsed.name", "line_parsed.get('name')", "line_parsed['name']"):
+                tested = bool(se.event.pol) == isinstance(se.node.ops[0], ast.In)  # True: the name is already declared
+                if tested:
+                    n_dup += 1
+                    exc = p_.term_node.exc if p_.term == "raise" and isinstance(p_.term_node, ast.Raise) and it[1] >= len(p_.events) else None
+                    if not (isinstance(exc, ast.Call) and ast.unparse(exc.func).endswith("ParserDataDuplicateException")):
+                        bad_dup += 1
+                    break
+            if se.event.kind == "stmt" and any(n is se.event.node or any(x is n for x in ast.walk(se.event.node)) for n, _t in recs):
+                n_rec += 1
+                if tested is not False:
+                    bad_rec += 1
+                break
+    r.check(n_rec >= 5 and bad_rec == 0 and n_dup >= 1 and bad_dup == 0, "duplicates", wd.loc(loop),
+            f"duplicate names are no longer rejected: {bad_rec} of {n_rec} recording paths have not tested `name in self.variables` first; "
+            f"{bad_dup} of {n_dup} already-declared paths do not raise ParserDataDuplicateException")
     pa = m.method(pc, "parse", own=True)
     order = [c.func.attr for c in calls_in(pa.node) if isinstance(c.func, ast.Attribute) and c.func.attr.startswith("_")]
     want = ["_sanitize", "_tokenize", "_segment", "_list_access_at_zero_and_remove_inline_labels", "_write_data",
@@ -429,9 +508,9 @@ def run(ctx: Ctx) -> None:
     r.check(isinstance(base, int) and base % 4 == 0, "first-data-address", "architecture_simulator/settings/settings.py:22", f"first data address {base} is not word aligned")
     # segment order does not matter: _segment splits on either order
     sg = m.method("Parser", "_segment", own=True)
-    t2 = " ".join(ast.unparse(sg.node).split())
-    r.check("self.data = self.text[index + 1:]" in t2 and "self.text = self.data[index + 1:]" in t2, "segments", sg.loc(),
-            "_segment no longer handles both .data-first and .text-first programs")
+    from ..flowspec import compare
+    compare(r, m, sg, SEGMENT_REF, "segments", keep=lambda k, t: not (k == "call" and t.endswith(".get('directive')")), what="_segment splits the token list at the .data / .text directives in either order "
+            "(a repeated or unknown directive is a ParserDirectiveException)")
     r.floor(6)
 
 
